@@ -24,6 +24,7 @@ fn main() {
                 "notc" => o.typecheck = false,
                 "order" => o.keep_order = true,
                 "detail" => detail = true,
+                "trace" => o.capture_trace = true,
                 _ => {
                     if let Some(n) = f.strip_prefix("fuel=") {
                         o.fuel = n.parse().unwrap();
